@@ -2,7 +2,7 @@ import OFCore.PeriodText
 /-!
 # Situation document → simulation (import-free apart from the period model)
 
-Transcription of the REPAIRED code (fixes C12a … C12f applied):
+Transcription of the REPAIRED code (fixes C12a … C12f and C12gh, C12i, C12k, C12l applied):
 
 * `openfisca_core/simulations/simulation_builder.py` : `build_from_dict`, `build_from_entities`,
   `explicit_singular_entities`, `add_person_entity`, `add_group_entity`,
